@@ -42,8 +42,11 @@ CONFIG = dict(
                   "harness/withmachine.py's translation of code objects (via dis) to abstract code"],
     assumptions=["the program space is sampled (generated programs + standard library); proved for all executions of each checked code object",
                  "awaitables returned by __aenter__/__aexit__ are coroutine objects (no Python-level __await__ runs inside GET_AWAITABLE)",
-                 "Coq instances for CPython 3.12.1 and 3.11.7 bytecode (version parameter of the machine and of the analysis model); 3.9/3.10 (block stack) are covered by the runtime leg only"],
-    unproved_legs=["CPython 3.9/3.10: runtime ground-truth leg only (no Coq model of the block-stack code path)",
+                 "Coq instances for CPython 3.12.1 and 3.11.7 bytecode (version parameter of the machine and of the analysis model); for 3.9/3.10 (block stack) only the exit-call attribution is a theorem (C01.v, C01_py310_exiting_block_partial), the rest is the runtime leg"],
+    unproved_legs=["CPython 3.9/3.10: the pre-3.11 branch of currently_exiting_context and analyze_with_blocks is modelled (M_BlockStack) and tied by the "
+                   "`bs` correspondence under both interpreters (every instruction offset of every corpus code object); the attribution of an exit call in "
+                   "progress to the block its POP_BLOCK pops is a theorem (C01_py310_exiting_block_partial, for every execution of the block-stack machine); "
+                   "exactness of the whole context list there, _lowlevel_cpython_310.inspect_frame and the absence of warnings are runtime ground-truth legs",
                    "inspect_frame's ctypes reads are not modelled; the chain walk and slot arithmetic are (M_Analysis.blocks/slot)"],
     timeout={"quick": 1200, "thorough": 5400},
 )
